@@ -57,7 +57,12 @@ def c01_frame(src):
         elif derived:
             res[oid] = {"status": "discharged", "note": "dimension argument is Unit._dimension_of(<factors argument>) (contract of _dimension_of)", "ms": 0, "backend": "static-scan"}
         else:
-            res[oid] = {"status": "undecided", "note": "constructor call site in %s is not under a C01 contract" % qual, "ms": 0, "backend": "static-scan"}
+            res[oid] = {"status": "undecided", "note": "constructor call site in %s is not under a C01 contract and its dimension argument is not Unit._dimension_of(<factors argument>)" % qual,
+                        "ms": 0, "backend": "static-scan"}
+        fi = prog.func(qual)
+        if fi is not None:
+            # the source text this verdict was read from: lets the driver tell a changed call site from solver noise
+            res[oid]["function"], res[oid]["deps"] = qual, {qual: fi.sha}
     return res
 
 
@@ -371,6 +376,60 @@ def core_state(src):
     return {"state/static:no-mutable-state-besides-the-registries": {
         "status": "discharged" if not extra else "refuted", "ms": 0, "backend": "static-scan", "complete": True,
         "note": "mutable class/module-level state outside the registries: %s" % ", ".join(extra) if extra else ""}}
+
+
+def process_state(src):
+    """no function of the library proper rebinds a module-level name (`global` / `nonlocal` caches) or changes
+    process-wide interpreter state (the decimal context, recursion limit, locale, random seed, environment,
+    warning filters): either makes a result depend on which calls came before, or on another thread"""
+    prog = Program(src)
+    bad = []
+    DENY = {"getcontext", "setcontext", "setrecursionlimit", "setlocale", "seed", "simplefilter", "filterwarnings", "setswitchinterval", "putenv"}
+    for m in prog.modules.values():
+        if m.name in ("measured.json", "measured.hypothesis", "measured.pytest", "measured.cli", "measured.ipython", "measured.pydantic", "measured.sqlalchemy", "measured.django"):
+            continue  # integration glue (codec installer, test helpers), outside the properties
+        for n in ast.walk(m.tree):
+            if isinstance(n, (ast.Global, ast.Nonlocal)):
+                bad.append("%s line %d: %s %s" % (m.name, n.lineno, type(n).__name__.lower(), ", ".join(n.names)))
+            elif isinstance(n, ast.Call):
+                f = n.func
+                name = f.attr if isinstance(f, ast.Attribute) else f.id if isinstance(f, ast.Name) else ""
+                if name in DENY:
+                    bad.append("%s line %d: call of %s()" % (m.name, n.lineno, name))
+            elif isinstance(n, ast.Subscript) and isinstance(n.ctx, (ast.Store, ast.Del)) and ast.unparse(n.value) in ("os.environ", "environ"):
+                bad.append("%s line %d: writes os.environ" % (m.name, n.lineno))
+    return {"state/static:no-global-rebinding-or-process-wide-state": {
+        "status": "discharged" if not bad else "refuted", "ms": 0, "backend": "static-scan", "complete": True, "note": "; ".join(bad)}}
+
+
+def memo_results(src):
+    """a value handed out by a memoised function is shared with every later caller: nobody may change it in place
+    (item/slice assignment, del, augmented assignment, append/extend/insert/pop/remove/sort/reverse/clear/update/add)"""
+    prog = Program(src)
+    memo = {f.name for f in prog.all_functions() if f.memo}
+    MUT = {"append", "extend", "insert", "pop", "remove", "sort", "reverse", "clear", "update", "add", "discard", "setdefault", "popitem"}
+    bad = []
+    for f in prog.all_functions():
+        holders = {}
+        for n in ast.walk(f.node):
+            if isinstance(n, ast.Assign) and isinstance(n.value, ast.Call):
+                callee = ast.unparse(n.value.func).split(".")[-1]
+                if callee in memo:
+                    for t in n.targets:
+                        for x in ast.walk(t):
+                            if isinstance(x, ast.Name):
+                                holders[x.id] = callee
+        if not holders:
+            continue
+        for n in ast.walk(f.node):
+            if isinstance(n, ast.Subscript) and isinstance(n.ctx, (ast.Store, ast.Del)) and isinstance(n.value, ast.Name) and n.value.id in holders:
+                bad.append("%s line %d: item assignment on the result of %s" % (f.qual, n.lineno, holders[n.value.id]))
+            elif isinstance(n, ast.AugAssign) and isinstance(n.target, ast.Name) and n.target.id in holders:
+                bad.append("%s line %d: augmented assignment on the result of %s" % (f.qual, n.lineno, holders[n.target.id]))
+            elif isinstance(n, ast.Call) and isinstance(n.func, ast.Attribute) and n.func.attr in MUT and isinstance(n.func.value, ast.Name) and n.func.value.id in holders:
+                bad.append("%s line %d: %s() on the result of %s" % (f.qual, n.lineno, n.func.attr, holders[n.func.value.id]))
+    return {"memo/static:results-of-memoised-functions-are-not-mutated": {
+        "status": "discharged" if not bad else "refuted", "ms": 0, "backend": "static-scan", "complete": True, "note": "; ".join(bad)}}
 
 
 def registry_writers(src):
